@@ -1,5 +1,5 @@
 (** C15 - Rate limiter bounds bursts and never stalls a transfer (local accounting facts). *)
-From IsoTp Require Import Base.Prelude Model.Layer Spec.ConfigSpec Proofs.LocalP.
+From IsoTp Require Import Base.Prelude Model.Layer Spec.ConfigSpec Proofs.LocalP Model.Micro Proofs.LimP.
 
 (** With the limiter disabled the allowance is 2^32-1 bytes: no frame (at most 64 bytes) is
     ever held back. *)
@@ -16,6 +16,22 @@ Proof. exact limiter_allowance. Qed.
 Theorem C15_accounting : forall p n s, p_lim_enable p = true -> lim_total (lim_inform p n s) = lim_total s + n * 8.
 Proof. exact limiter_accounts. Qed.
 
+(** Run level: in EVERY state reachable by micro-steps from the initial state (any schedule, any
+    traffic, any sends) the bits accounted in the limiter's live window stay within the budget
+    bitrate x window (the exact rational bn/bd) plus one CAN FD frame. *)
+Theorem C15_window_bound : forall c t0 ms, params_ok (c_p c) ->
+  let s := fst (mrun c (init_layer c t0) ms) in
+  lim_total s * p_lim_bd (c_p c) <= p_lim_bn (c_p c) + 8 * 64 * p_lim_bd (c_p c).
+Proof. exact lim_bound_reachable. Qed.
+
+(** A data frame leaves a transmit pass only while the budget is not exhausted (allowance >= 1 byte and
+    the frame is at most 64 bytes), or if the whole frame fits in what is left ([Efact]). *)
+Theorem C15_emission_needs_budget : forall c s, params_ok (c_p c) -> pending_fc s = false ->
+  forall m, tr_msg (process_tx c s) = Some m -> Efact (lim_allowed_bytes (c_p c) s) m.
+Proof. exact emission_needs_budget. Qed.
+
 Print Assumptions C15_off.
 Print Assumptions C15_allowance.
 Print Assumptions C15_accounting.
+Print Assumptions C15_window_bound.
+Print Assumptions C15_emission_needs_budget.
